@@ -5,6 +5,7 @@
 //! values, both triangles.  Oracle: position and value of every entry via the recorded maps.
 use crate::fp::*;
 use crate::gen::*;
+use clarabel::algebra::verif_hooks::{MatrixShape, MatrixTriangle};
 use clarabel::algebra::*;
 use clarabel::solver::SupportedConeT;
 use clarabel::verif_hooks::cones::verif_hooks_cc as cc;
@@ -223,7 +224,181 @@ maps_harness!(c11_maps_soc5_p2_tril, 5, 3, [SecondOrderConeT(5)], 2, false, 20);
 maps_harness!(c11_maps_exp_p4_triu, 3, 2, [ExponentialConeT()], 4, true, 14);
 maps_harness!(c11_maps_nnsoc5z_p1_tril, 7, 3, [NonnegativeConeT(1), SecondOrderConeT(5), ZeroConeT(1)], 1, false, 24);
 
+// layout [SOC3, SOC5]: a sparse-expanded cone AFTER a cone with a dense Hs block (row offsets of the
+// expansion come from the cone ranges, not from the packed block ranges)
+maps_harness!(c11_maps_soc3soc5_p1_triu, 8, 3, [SecondOrderConeT(3), SecondOrderConeT(5)], 1, true, 26);
+maps_harness!(c11_maps_expsoc5_p0_tril, 8, 2, [ExponentialConeT(), SecondOrderConeT(5)], 0, false, 26);
+
 /// translation validation of the hook constructor: CompositeCone without the printing-only map
 /// agrees with the real constructor on every field the solver uses (run natively, not under Kani)
 #[cfg(test)]
 mod tv {}
+
+// ---------------------------------------------------------------------------------------------
+// C08.kkt_sync / C11.restore — every value written into the solver's KKT matrix (P, A, Hs blocks,
+// sparse expansions, regularised diagonal) reaches the LDL engine's own copy, and after the update
+// the solver's copy (used for iterative refinement) carries no regularisation.
+// The REAL DirectLDLKKTSolver::{update_P, update_A, update (regularize_and_refactor)} run against a
+// *mirror* engine that applies update_values / scale_values to its own copy (as QDLDL does with its
+// permuted copy) and, when asked to refactor, compares its copy with the matrix it is handed.
+// ---------------------------------------------------------------------------------------------
+use clarabel::verif_hooks::core::direct::verif_hooks_ldlkkt as lk;
+use clarabel::verif_hooks::core::direct::DirectLDLKKTSolver;
+use clarabel::verif_hooks::core::direct::{DirectLDLSolver, DirectLDLSolverReqs};
+use clarabel::verif_hooks::core::{HasLinearSolverInfo, KKTSolver, LinearSolverInfo};
+
+const CAP: usize = 24;
+static mut MIRROR: [f64; CAP] = [0.0; CAP];
+static mut MIRROR_N: usize = 0;
+static mut REFACTORS: u32 = 0;
+static mut MIRROR_EQUALS_KKT_AT_REFACTOR: bool = true;
+
+struct MirrorEngine;
+impl DirectLDLSolverReqs<f64> for MirrorEngine {
+    fn required_matrix_shape() -> MatrixTriangle {
+        MatrixTriangle::Triu
+    }
+}
+impl HasLinearSolverInfo for MirrorEngine {
+    fn linear_solver_info(&self) -> LinearSolverInfo {
+        LinearSolverInfo { name: String::new(), threads: 1, direct: true, nnzA: 0, nnzL: 0 }
+    }
+}
+impl DirectLDLSolver<f64> for MirrorEngine {
+    fn update_values(&mut self, index: &[usize], values: &[f64]) {
+        let mut k = 0;
+        while k < index.len() {
+            unsafe {
+                MIRROR[index[k]] = values[k];
+            }
+            k += 1;
+        }
+    }
+    fn scale_values(&mut self, index: &[usize], scale: f64) {
+        let mut k = 0;
+        while k < index.len() {
+            unsafe {
+                MIRROR[index[k]] *= scale;
+            }
+            k += 1;
+        }
+    }
+    fn offset_values(&mut self, _index: &[usize], _offset: f64, _signs: &[i8]) {}
+    fn solve(&mut self, _kkt: &CscMatrix<f64>, _x: &mut [f64], _b: &[f64]) {}
+    fn refactor(&mut self, kkt: &CscMatrix<f64>) -> bool {
+        unsafe {
+            REFACTORS += 1;
+            let mut k = 0;
+            while k < MIRROR_N {
+                if !same_bits(MIRROR[k], kkt.nzval[k]) {
+                    MIRROR_EQUALS_KKT_AT_REFACTOR = false;
+                }
+                k += 1;
+            }
+        }
+        true
+    }
+}
+
+fn kkt_sync<const M: usize>(cones_t: &[SupportedConeT<f64>], reg: bool) {
+    // P: full upper triangle, A: dense M x 2 (concrete patterns), symbolic values
+    let mut P = CscMatrix::<f64> { m: 2, n: 2, colptr: vec![0, 1, 3], rowval: vec![0, 0, 1], nzval: vec![0.0; 3] };
+    let mut rowval = Vec::new();
+    for _ in 0..2 {
+        for i in 0..M {
+            rowval.push(i);
+        }
+    }
+    let mut A = CscMatrix::<f64> { m: M, n: 2, colptr: vec![0, M, 2 * M], rowval, nzval: vec![0.0; 2 * M] };
+    for k in 0..3 {
+        P.nzval[k] = small_f64(9);
+    }
+    for k in 0..2 * M {
+        A.nzval[k] = small_f64(9);
+    }
+    let mut cones = cc::new_without_type_counts(cones_t);
+    cones.set_identity_scaling();
+    let mut ks = lk::new_with_engine(&P, &A, &cones, M, 2, true, |K, _d| {
+        // the engine takes its own copy of the assembled matrix, like QDLDL does
+        unsafe {
+            MIRROR_N = K.nzval.len();
+            assert!(MIRROR_N <= CAP);
+            let mut k = 0;
+            while k < MIRROR_N {
+                MIRROR[k] = K.nzval[k];
+                k += 1;
+            }
+        }
+        Box::new(MirrorEngine)
+    });
+    // new data (as update_P / update_A write it after re-applying the equilibration)
+    let mut P2 = P.clone();
+    let mut A2 = A.clone();
+    for k in 0..3 {
+        P2.nzval[k] = small_f64(9);
+    }
+    for k in 0..2 * M {
+        A2.nzval[k] = small_f64(9);
+    }
+    ks.update_P(&P2);
+    ks.update_A(&A2);
+    let mut st = settings_f64();
+    st.static_regularization_enable = reg;
+    let ok = ks.update(&cones, &st);
+    assert!(ok);
+    unsafe {
+        assert!(REFACTORS == 1, "update_refactors_once");
+        assert!(MIRROR_EQUALS_KKT_AT_REFACTOR, "engine_copy_equals_the_KKT_matrix_at_refactor_time");
+    }
+    let K = lk::kkt(&ks);
+    // the solver's copy holds the new data at the recorded positions ...
+    let mp = lk::map_P(&ks);
+    let ma = lk::map_A(&ks);
+    for k in 0..3 {
+        if mp[k] != lk::map_diag_full(&ks)[0] && mp[k] != lk::map_diag_full(&ks)[1] {
+            assert!(K.nzval[mp[k]] == P2.nzval[k], "KKT_holds_the_new_P_offdiagonal");
+        }
+    }
+    for k in 0..2 * M {
+        assert!(K.nzval[ma[k]] == A2.nzval[k], "KKT_holds_the_new_A");
+    }
+    // ... and an unregularised diagonal: P's diagonal entries and -Hs on the cone block
+    let df = lk::map_diag_full(&ks);
+    assert!(K.nzval[df[0]] == P2.nzval[0] && K.nzval[df[1]] == P2.nzval[2], "KKT_diagonal_restored_to_the_unregularised_P_diagonal");
+    // the engine, on the other hand, was given the shifted diagonal iff regularisation is on
+    let eps = lk::diagonal_regularizer(&ks);
+    unsafe {
+        if reg {
+            assert!(eps > 0.0, "regulariser_positive");
+            assert!(MIRROR[df[0]] == P2.nzval[0] + eps && MIRROR[df[1]] == P2.nzval[2] + eps, "engine_gets_plus_eps_on_the_primal_block");
+            assert!(MIRROR[df[2]] == K.nzval[df[2]] - eps, "engine_gets_minus_eps_on_the_cone_block");
+        } else {
+            assert!(same_bits(MIRROR[df[0]], K.nzval[df[0]]), "no_shift_without_regularisation");
+        }
+    }
+    let ds = lk::dsigns(&ks);
+    assert!(ds[0] == 1 && ds[1] == 1 && ds[2] == -1 && ds[2 + M - 1] == -1, "sign_vector_plus_on_primal_minus_on_cone_rows");
+    kani::cover!(P2.nzval[1] == 5.0 && P.nzval[1] == -5.0, "off-diagonal of P changes sign");
+}
+
+#[kani::proof]
+#[kani::unwind(14)]
+#[kani::stub(std::collections::hash_map::RandomState::new, stub_random_state)]
+pub fn c11_kkt_sync_nn2_reg() {
+    kkt_sync::<2>(&[SupportedConeT::NonnegativeConeT(2)], true);
+}
+
+#[kani::proof]
+#[kani::unwind(14)]
+#[kani::stub(std::collections::hash_map::RandomState::new, stub_random_state)]
+pub fn c11_kkt_sync_zero1_nn1_noreg() {
+    kkt_sync::<2>(&[SupportedConeT::ZeroConeT(1), SupportedConeT::NonnegativeConeT(1)], false);
+}
+
+#[kani::proof]
+#[kani::unwind(22)]
+#[kani::stub(std::collections::hash_map::RandomState::new, stub_random_state)]
+pub fn c11_kkt_sync_soc5_reg() {
+    // sparse expansion: update() also writes u, v (update + scale) and the expansion diagonal
+    kkt_sync::<5>(&[SupportedConeT::SecondOrderConeT(5)], true);
+}
